@@ -13,6 +13,7 @@ import (
 )
 
 type Env struct {
+	upFrames bool // unknown names are looked up in the frames of inlined callers as well
 	c        *FnCtx
 	fr       *Frame
 	st       *State // current state
@@ -344,6 +345,13 @@ func (c *FnCtx) lookup(env *Env, name string) Val {
 						}
 					}
 				}
+				if fr.entry != nil && env.st != fr.entry {
+					// a parameter that the body reassigns (id = intercept(id)): past the entry state the source name
+					// denotes the variable's current value, like any other local
+					if v, ok := c.debugName(env, name); ok {
+						return v
+					}
+				}
 				return c.envVal(env, p)
 			}
 		}
@@ -377,6 +385,13 @@ func (c *FnCtx) lookup(env *Env, name string) Val {
 	// package-level
 	if v, ok := c.lookupQualified(env, "", name); ok {
 		return v
+	}
+	if env.upFrames && fr != nil && fr.parent != nil {
+		// step clauses evaluated inside inlined code: names of the (inlined) callers are in scope too
+		ne := *env
+		ne.fr = fr.parent
+		ne.loop = nil
+		return c.lookup(&ne, name)
 	}
 	panic(specError("unknown name " + name))
 }
